@@ -81,6 +81,11 @@ CHECKS = {
    note="Exploration level: the quantifier of C01 (all character sequences, byte-level mutation) is a fuzzing quantifier; TLC contributes the generation, the oracle is trivial. Inputs longer than the bounds and arbitrary byte mutations are not covered. "
         "A hang is declared only when bash finishes the same text.",
    ref="DESIGN.md section 6 C01, section 11"),
+ "C13": dict(level=MC, thorough=True, tech="TLA+ Quote.tla (the shell reader for a quoted word: quotes, backslash, $'...' escapes, what would expand or split) evaluated by TLC on every recorded (value, rendering); plus eval round trips in brush and bash for word and declaration forms",
+   text="Quote.tla is an independent reader; every value of <= 3 characters over a 12-symbol quoting alphabet (quotes, backslash, $, backquote, !, blank, newline, CR, control, multi-byte), values with special leading characters and seeded long random values "
+        "is rendered by the real shell through printf %q, ${v@Q}, ${v@A}, declare -p (scalar / indexed / associative), export -p, set, alias, trap -p and the set -x trace; TLC checks Read(text) = value on every word-form record and each rendering is eval'ed in a fresh brush and a fresh bash.",
+   note="Trusted: TLC, the extraction of the quoted word from alias / trap -p / xtrace lines, bash as one of the readers. Values are valid UTF-8 without NUL, injected through the environment. One recorded finding: brush cannot re-read associative-array keys that contain `]` or need $'...'.",
+   ref="DESIGN.md section 6 C13"),
 }
 PENDING_REASON = "check not built yet in this round (planned, see DESIGN.md section 12); no claim is made"
 
